@@ -58,14 +58,16 @@ impl HasSurface for Polygon {
         if self.len() < 3 {
             return vector![0.0, 0.0, 1.0];
         };
-        let v0 = self[1] - self[0];
-        let v1 = self[2] - self[0];
-
-        // normal
-        // let n = vector![v0.x, v0.y, 0.0].cross(&vector![v1.x, v1.y, 0.0]).normalize();
-        // Desarrollando el determinante por la fila 3 -> x=0, y= 0, z es 1 o -1 según signo del adjunto superior
-        // assert!(n.x == n2.x && n.y == n2.y && n.z == n2.z);
-        if v0.x * v1.y >= v0.y * v1.x {
+        // El sentido de la normal (z = 1 o -1) es el signo del área con signo del polígono, calculada con todos sus vértices
+        // (fórmula del cordón), de modo que sea correcto también en polígonos no convexos
+        let n = self.len();
+        let signed_area2: f32 = (0..n)
+            .map(|i| {
+                let (p, q) = (self[i], self[(i + 1) % n]);
+                p.x * q.y - q.x * p.y
+            })
+            .sum();
+        if signed_area2 >= 0.0 {
             vector![0.0, 0.0, 1.0]
         } else {
             vector![0.0, 0.0, -1.0]
